@@ -156,7 +156,7 @@ type Outcome struct {
 
 // ---------------------------------------------------------------- run state
 
-const maxArgs = 12
+const maxArgs = 24
 const maxOuts = 4
 
 type nslot struct {
